@@ -47,6 +47,76 @@ def canonicalise(doc):
     return json.loads(text), mapping
 
 
+def staged_doc(prog, max_blocks=60):
+    """The *staged view* of the crate: every private function with exactly one call site, called from a function of the same type (or, for free
+    functions, of the same module), that is loop-free and small (≤ 60 blocks) is spliced into its caller and removed as a function of its own — a long function split into private stages
+    (`split_term`, `add_emoji_suggestions`, `add_typed_english`) is then the long function again.  Splicing a function into its only call site
+    preserves the program's behaviour, so a structural rule that holds on the staged view holds for the real program.
+    Returns (doc, {stage: host}) or (None, {}) when there is nothing to splice."""
+    import copy
+    from .inline import inline_mir
+    from .sroa import scalarise
+    prog.callgraph()
+    stages = {}
+    for k, f in prog.fns.items():
+        imp = f.get("impl") or {}
+        if f.get("kind") == "Closure" or f.get("no_mangle") or imp.get("trait") or len(f["mir"]["blocks"]) > max_blocks:
+            continue
+        cs = prog.call_sites.get(k, [])
+        if len(cs) != 1:
+            continue
+        caller = cs[0][0]
+        cf = prog.fns.get(caller) or {}
+        if caller == k or cf.get("kind") == "Closure":
+            continue
+        if Body(f).loops():
+            continue                    # a stage with a loop of its own is a unit the rules know by role (scan, join, look-up); only straight stages are spliced
+        cimp = cf.get("impl") or {}
+        same_home = (imp.get("self") and imp.get("self") == cimp.get("self")) or \
+                    (not imp.get("self") and not cimp.get("trait") and k.rsplit("::", 1)[0] == (cimp.get("self") or caller).rsplit("::", 1)[0])
+        if not same_home:
+            continue
+        stages[k] = caller
+    if not stages:
+        return None, {}
+
+    def host(k):
+        seen = set()
+        while k in stages and k not in seen:
+            seen.add(k)
+            k = stages[k]
+        return k
+    hosts = sorted({host(k) for k in stages})
+    doc = dict(prog.doc)
+    fns = dict(prog.fns)
+    for h in hosts:
+        if h in stages:
+            continue
+        m, prom, inl = inline_mir(prog, h, stop=lambda g: g not in stages, maxdepth=6, desugar=False)      # plain splicing: the hosts keep their own spelling
+        try:
+            scalarise(m, prog)
+        except Exception:
+            pass
+        nf = dict(fns[h])
+        nf["mir"] = m
+        nf["promoted"] = prom
+        nf["staged"] = sorted(set(inl))
+        fns[h] = nf
+    gone = {k for k in stages if host(k) not in stages}
+    for k in gone:
+        fns.pop(k, None)
+    for k, f in list(fns.items()):
+        if f.get("kind") == "Closure" and (f.get("parent") in gone or f.get("root") in gone):
+            nf = dict(f)
+            if nf.get("parent") in gone:
+                nf["parent"] = host(nf["parent"])
+            if nf.get("root") in gone:
+                nf["root"] = host(nf["root"])
+            fns[k] = nf
+    doc["fns"] = fns
+    return doc, {k: host(k) for k in sorted(gone)}
+
+
 class AnchorError(Exception):
     """A role locator matched zero or several items: fail closed."""
 
